@@ -854,6 +854,9 @@ def run(chk) -> None:
     check_group(chk)
     for rule, n in (("identity-key-model", 2), ("pdb-columns", 9), ("clash-same-model", 1), ("optional-occupancy", 2), ("model-selection", 3)):
         chk.floor(rule, n)
+    from sa import memoshare
+
+    memoshare.check(chk, "C08")  # a memoised function must not hand one mutable object to every caller
 
 
 MANIFEST_ENTRY = {
